@@ -10,6 +10,7 @@ Line-protocol driver for the C09 model (name → id assignment), see harness/int
   mprepare | mflush | mflushcrash <k> | iprepare <s> | iflush <s> | iflushcrash <s> <k> | reopen | crash
   krace <nsBucket> <ns> <name>                (two callers, A stopped before createValue)
   srace tagkey|field <metricId> <nameA> <nameB>  (two callers, A stopped before the store lock)
+  swindow field <metricId> <f>                (metadata flush; GenFieldID runs between the schema commit and MarkPersisted)
 
 The code variant (`Cfg`) and the default limits are the ones derived from the regenerated facts.
 -/
@@ -159,6 +160,10 @@ def step (nd : Node) (ws : List String) : Node × String :=
       let r := fieldRace cfg.schema nd.lim nd.schema m a b
       ({ nd with schema := r.1 }, s!"A={showOut r.2.1} B={showOut r.2.2}")
     | _, _, _ => bad
+  | ["swindow", "field", m, f] =>
+    match m.toNat?, f.toNat? with
+    | some m, some f => let r := nd.metaFlushFieldInWindow cfg m f; (r.1, showOut r.2)
+    | _, _ => bad
   | _ => bad
 
 def main (_args : List String) : IO Unit := Proto.runLoop ({} : Node) step
